@@ -7,7 +7,7 @@ from . import gen
 
 def _valid(text):
     try:
-        ast.parse(text)
+        compile(text, "<doc>", "exec", dont_inherit=True)
         return True
     except Exception:
         return False
@@ -34,8 +34,9 @@ def mutate(ws, rel, text, rng, names):
     op = rng.choice(ops)
     if op == "add_fixture":
         n = rng.choice(names + [f"extra_{rng.randint(0, 3)}"])
+        dep = rng.choice(names)
         s, _ = gen.fixture_src(ws, n, rng, self_param=rng.random() < 0.2,
-                               extra_deps=[rng.choice(names)] if rng.random() < 0.3 else ())
+                               extra_deps=[dep] if rng.random() < 0.3 and dep != n else ())
         return text.rstrip("\n") + "\n\n" + s, op
     if op == "add_usage":
         n = rng.choice(names + ["extra_0", "extra_1"])
@@ -111,7 +112,17 @@ def mutate(ws, rel, text, rng, names):
     return text, "resend"
 
 
-def gen_history(ws, rng, n_steps, files=None, names=None):
+def gen_history(ws, rng, n_steps, files=None, names=None, parses=None):
+    """parses: optional callable(text)->bool giving the implementation parser's verdict; a step on which CPython
+    and that parser disagree is outside the supported grammar and is not generated"""
+    for _attempt in range(20):
+        steps = _gen_history(ws, rng, n_steps, files, names)
+        if parses is None or all(parses(s["text"]) == s["valid"] for s in steps):
+            return steps
+    return [s for s in steps if parses(s["text"]) == s["valid"]]
+
+
+def _gen_history(ws, rng, n_steps, files=None, names=None):
     """yields steps: dict(op, rel, text, valid)"""
     names = names or ws.spec["names"]
     cands = files or [r for r in ws.workspace_py()]
